@@ -40,7 +40,21 @@ pub enum ErrSpec {
     Str,
     /// a harness-private error type
     Private,
+    /// a harness-private error type whose Display is harmless and whose (derived) Debug shows the record it was
+    /// handling, key material included — as a key store's own error type may
+    Record(String),
 }
+
+#[derive(Debug)]
+pub struct KeyStoreError {
+    pub record: String,
+}
+impl std::fmt::Display for KeyStoreError {
+    fn fmt(&self, f: &mut std::fmt::Formatter<'_>) -> std::fmt::Result {
+        write!(f, "key store lookup failed")
+    }
+}
+impl std::error::Error for KeyStoreError {}
 
 #[derive(Debug)]
 pub struct PrivateError(pub u32);
@@ -77,6 +91,7 @@ pub fn make_err(e: &ErrSpec) -> BoxError {
         ErrSpec::Io => Box::new(std::io::Error::new(std::io::ErrorKind::TimedOut, "key store timed out")),
         ErrSpec::Str => "key store unavailable".to_string().into(),
         ErrSpec::Private => Box::new(PrivateError(1)),
+        ErrSpec::Record(r) => Box::new(KeyStoreError { record: r.clone() }),
     }
 }
 
